@@ -218,6 +218,9 @@ class BinaryRBM(nn.Module):
         :rtype: torch.Tensor
         """
         v = (initial_state if overwrite else initial_state.clone()).to(self.weights)
+        # the conditionals are written with out=: work on dense memory (a strided
+        # start state is copied here and, if requested, written back below)
+        v = v.contiguous()
 
         h = torch.zeros(*v.shape[:-1], self.num_hidden).to(self.weights)
 
@@ -228,6 +231,9 @@ class BinaryRBM(nn.Module):
         if overwrite and v is not initial_state and v.device == initial_state.device:
             # .to() had to copy (other dtype): write the result back as requested
             initial_state.copy_(v)
+            if initial_state.dtype == v.dtype:
+                # only the memory layout differed: the chain lives on in the caller's tensor
+                return initial_state
 
         return v
 
